@@ -1428,6 +1428,57 @@ func (s *searcher) run(g *gen, n int) {
 			s.add("group-roundtrip-"+strings.SplitN(res, " ", 2)[0], "producible group does not survive Marshal/UnMarshal: "+res,
 				map[string]string{"call": "MarshalGroup;UnMarshalGroup", "group": tokGroup(gr), "observed": res})
 		}
+		// --- member and group-slice round trips
+		mem := &types.Member{Id: g.r.Bytes(1 + g.r.Intn(33)), PubKey: g.r.Bytes(g.r.Intn(65))}
+		s.evals++
+		res = hx.Guard(func() string {
+			b, err := types.MarshalMember(mem)
+			if err != nil {
+				return "marshal-failed"
+			}
+			m2, err := types.UnMarshalMember(b)
+			if err != nil || m2 == nil {
+				return "reparse-failed"
+			}
+			if hx.Hex(m2.Id) != hx.Hex(mem.Id) || hx.Hex(m2.PubKey) != hx.Hex(mem.PubKey) {
+				return "content " + hx.Hex(mem.Id) + "/" + hx.Hex(mem.PubKey) + " -> " + hx.Hex(m2.Id) + "/" + hx.Hex(m2.PubKey)
+			}
+			return "same"
+		})
+		if res != "same" {
+			s.add("member-roundtrip-"+strings.SplitN(res, " ", 2)[0], "member does not survive Marshal/UnMarshal: "+res,
+				map[string]string{"call": "MarshalMember;UnMarshalMember", "id": hx.Hex(mem.Id), "pubkey": hx.Hex(mem.PubKey), "observed": res})
+		}
+		grs := []*types.Group{g.group(true), g.group(true)}
+		s.evals++
+		res = hx.Guard(func() string {
+			gs := &middleware_pb.GroupSlice{}
+			for _, x := range grs {
+				gs.Groups = append(gs.Groups, types.GroupToPb(x))
+			}
+			b, err := proto.Marshal(gs)
+			if err != nil {
+				return "marshal-failed"
+			}
+			gs2 := new(middleware_pb.GroupSlice)
+			if err := proto.Unmarshal(b, gs2); err != nil {
+				return "reparse-failed"
+			}
+			out := types.PbToGroups(gs2)
+			if len(out) != len(grs) {
+				return "count " + strconv.Itoa(len(grs)) + " -> " + strconv.Itoa(len(out))
+			}
+			for k := range out {
+				if d := diffTokens(tokGroup(grs[k]), tokGroup(out[k])); len(d) > 0 && !onlyIn(d, 7, 8, 9) {
+					return "content " + tokGroup(grs[k]) + " -> " + tokGroup(out[k])
+				}
+			}
+			return "same"
+		})
+		if res != "same" {
+			s.add("groups-roundtrip-"+strings.SplitN(res, " ", 2)[0], "group slice does not survive GroupToPb/Marshal/Unmarshal/PbToGroups: "+res,
+				map[string]string{"call": "GroupToPb;proto.Marshal;proto.Unmarshal;PbToGroups", "groups": tokGroup(grs[0]) + " | " + tokGroup(grs[1]), "observed": res})
+		}
 		// --- values obtained by parsing: a second pass must be the identity on content and hash
 		hb, _ := types.MarshalBlockHeader(g.header(false))
 		if hb != nil {
